@@ -567,7 +567,13 @@ func runProcHistory(c *core.Ctx, m *core.Model, r *rand.Rand, self string, hidx 
 	cap := caps[r.Intn(len(caps))]
 	names := storeNames(r)
 	p := storeProfile{name: "c10proc", maxOps: 24, reopenPct: 0, bigPct: 5}
-	ops := genHistory(r, p, names, 5+r.Intn(p.maxOps))
+	ops0 := genHistory(r, p, names, 5+r.Intn(p.maxOps))
+	ops := ops0[:0]
+	for _, o := range ops0 {
+		if o.kind != "addfail" { // failing deliveries are the in-process histories' business
+			ops = append(ops, o)
+		}
+	}
 	for i := range ops {
 		if ops[i].kind == "visitk" { // the helper process has no stopping visitor; a full walk instead
 			ops[i] = storeOp{kind: "visit"}
